@@ -444,6 +444,18 @@ def oracle(case):
     exp = expected(fields, vals)
     if not same(got, exp):
         raise Violation("c16:roundtrip-values", "decoded %r, encoded %r" % (got, exp))
+    # 2b. no aliasing of the caller's buffer: decode from a bytearray, scribble over it, the decoded content stays
+    buf_ = bytearray(ref)
+    env_a = build_env(fields)
+    try:
+        env_a.from_bytes(buf_)
+        for i_ in range(len(buf_)):
+            buf_[i_] = (buf_[i_] + 0x55) & 0xff
+        again_ = bytes(env_a.to_bytes())
+    except (codec.DecodeError, codec.EncodeError) as e:
+        raise Violation("c16:decode-from-bytearray", "%r" % (e,))
+    if not same(dict(env_a.c), exp) or again_ != ref:
+        raise Violation("c16:decoded-content-aliases-input", "content decoded from a bytearray changed when the caller re-used the buffer")
     # 3. canonical re-encoding with spare bits / octets randomised
     noisy = bytes(b ^ (case["noise"][i % 64] & lay.spare[i]) for i, b in enumerate(ref))
     if noisy != ref:
